@@ -20,7 +20,7 @@ CHECKS["C03"] = dict(
     text="For every LHS-shape x some/all x operator x RHS-class combination (exhaustive over the listed classes) and for random "
          "clauses on random documents, 6-9 spellings of the negated/un-negated clause are evaluated together by the real "
          "evaluator; the monitor asserts prefix-not == operator-not (all spellings), double negation == original, flip on "
-         "single comparable values, order inverses, the named-rule negation table and the same table for negated parameterised calls "
+         "single comparable values, flip for `in` with right-hand lists taken from the document (query, variable, `[*]`), order inverses, the named-rule negation table and the same table for negated parameterised calls "
          "(`not p(args)` in rule bodies, when conditions, when blocks and `or` lines, with and without custom message).",
     note="Trusts the generator's model-based decision that a query selects exactly one comparable value (plain key paths only). "
          "Needs no reference semantics.",
@@ -32,7 +32,7 @@ CHECKS["C02"] = dict(
          "all shapes with <=2 lines plus a sample) and random programs with type blocks, parameterised rules, nested when/blocks are "
          "evaluated on random documents. Each emitted EventRecord tree is checked node by node against the property's composition "
          "rules, the rule status against the formula over the forced leaves, the hook stream for balanced records, and the root "
-         "status against the structured report and the exit code of `validate --print-json`.",
+         "status against the structured report and the exit code of `validate --print-json`; with 2-3 data files in one run every root of the printed list is checked against its own data file and the exit code against the worst of them.",
     note="Trusts the leaf gadgets to have the intended status (itself asserted through the tree). Filter records are treated as "
          "transparent; vacuous clauses (no value compared) are not constrained; error-terminated evaluations are exempt.",
     ref="DESIGN.md §6 P-C02")
@@ -41,7 +41,7 @@ CHECKS["C04"] = dict(
     technique="runtime monitoring: metamorphic order/repetition monitor with hook-observed memoisation histories",
     text="Random base programs that share variables and named references (30% with an alternative, `when`-guarded definition of a rule name) are evaluated together with up to ~25 order/repetition "
          "transforms each (all permutations of small rule bodies and rule orders, shuffled alternatives, duplicated lines, alternatives "
-         "and rules, early/late references) on 2-3 documents; rule->status maps must agree. The verif-hooks event stream shows "
+         "and rules, early/late references, inserted filter lines that select nothing and therefore skip) on 2-3 documents; rule->status maps must agree. The verif-hooks event stream shows "
          "how many distinct variable-resolution orders and rule-status hit/miss patterns were actually exercised.",
     note="Groups where any variant errors are inconclusive (the property's proviso). Trusts the printer/parser round trip of the generated AST.",
     ref="DESIGN.md §6 P-C04")
@@ -53,7 +53,7 @@ CHECKS["C15"] = dict(
          "shadowing, a key of a query taken from a variable (`a.%k`), inlining of parameterised-rule calls - and both programs are evaluated on the same document; the rule->status maps "
          "must agree. Divergences are classified (hypothesis program for the `[*]`-after-variable quirk, per-line attribution for inlining) "
          "so that known findings have narrow signatures. Exhaustive key-interpolation matrix (12 clause forms x 3 polarities x 12 value classes x file/rule/block scope), call-volume check "
-         "(3/70/200 elements x call per element, nested, 90 sequential, negated; twice per process) and idle-argument check (rewriting the argument of an unread parameter as `some q` or a literal).",
+         "(3/70/200 elements x call per element, nested, 90 sequential, negated; twice per process) and idle-argument check (rewriting the argument of an unread parameter as `some q` or a literal); block-let matrix (a `let` inside rule / when / type / query blocks and filters, bound to literal, query, function result, vs the in-place form).",
     note="Skips the documented exception (`q empty` -> `%v empty`). Trusts the printer. Known findings: three classes in known_findings.json.",
     ref="DESIGN.md §6 P-C15")
 
@@ -62,17 +62,17 @@ CHECKS["C14"] = dict(
     text="Each generated program is pretty-printed canonically and with every single-occurrence flip of every documented token class "
          "(keyword case, not/NOT/!, or/OR/|OR|, =/:=, quotes, .n/[n], leading this., indentation, blank lines, trailing spaces, line breaks in "
          "lists/filters, # comments) plus random combinations; `parse-tree --print-json` of variant and canonical text must be the same AST "
-         "(locations removed), sampled verdicts must agree; type blocks are compared with their desugaring and file-level clauses with `rule default` by verdict.",
+         "(locations removed), sampled verdicts must agree; type blocks are compared with their desugaring and file-level clauses with `rule default` by verdict; an explicit-`this` matrix (clause forms x block / filter / when contexts, with and without `this.`) is compared by verdict on documents that make both outcomes occur.",
     note="A variant that fails to parse is a violation. Documented restrictions (reference ends its line) are never varied. Leading `this` is normalised in the AST and checked by verdict.",
     ref="DESIGN.md §6 P-C14")
 
 CHECKS["C06"] = dict(
     technique="runtime monitoring: real-process exit-status monitor with a scenario classifier as oracle",
-    text="The shipped binary is run as real processes on scenarios built from finite classes (1..3 rules files from 7 kinds x 1..3 data "
-         "files from 5 kinds, every position, x 12 invocation modes incl. payload, stdin, directories, structured json/yaml/junit/sarif; "
+    text="The shipped binary is run as real processes on scenarios built from finite classes (1..3 rules files from 8 kinds (incl. rules whose `when` guard decides by data) x 1..3 data "
+         "files from 6 kinds (incl. documents no rule applies to; every single-rules-file combination always runs), every position, x 12 invocation modes incl. payload, stdin, directories, structured json/yaml/junit/sarif; "
          "`test` scenarios x 4 formats x 4 layouts - files, directory, directory with 2-3 rules files and the scenario file at each position, --test-data directory with the scenario file in a sub-directory); the exit status must fall in the class a 30-line classifier derives from what the "
          "generator built (per-pair verdicts confirmed by singleton library runs); in-process results must agree with process exits; "
-         "missing paths and unusable option combinations must give an error exit, never 0 or 19.",
+         "missing paths and unusable option combinations must give an error exit, never 0 or 19; re-runs under NO_COLOR / CLICOLOR_FORCE / TERM settings must keep the exit status.",
     note="Trusts singleton run_checks verdicts for pair classification and PyYAML for deciding that a 'malformed' sample really is malformed. "
          "Crash exits are inconclusive here (C08 owns them).",
     ref="DESIGN.md §6 P-C06")
@@ -84,7 +84,7 @@ CHECKS["C05"] = dict(
          "conversions, join/regex_replace; 2 console modes on Terraform-plan-shaped data; 3 modes writing to an --output file that held other content before) are each run 5 (quick) / 8 (thorough) times as fresh processes of the shipped binary - fresh hash seeds - under "
          "rotated TZ (tzdata names and POSIX strings)/LANG/HOME/COLUMNS/NO_COLOR/CLICOLOR_FORCE/RUST_BACKTRACE/cwd/pipe-vs-file, and payload modes 5 times inside one process; exit codes must be "
          "equal, structured output byte-identical (elapsed-time fields masked), console output equal as a multiset of lines; what a structured "
-         "json/yaml/junit/sarif batch says about one data file must equal what the run on that file alone says (nothing evaluated earlier in the process).",
+         "json/yaml/junit/sarif batch says about one data file must equal what the run on that file alone says (nothing evaluated earlier in the process); rules iterate map keys with key filters (`[ keys == | != | in | not in ]`) so that map iteration order is observable.",
     note="A random ordering of k items escapes N runs with probability (1/k!)^(N-1); inputs have >=3 rules/files per collection. Environment rotation is a sample, not all environments.",
     ref="DESIGN.md §6 P-C05")
 
@@ -113,7 +113,7 @@ CHECKS["C12"] = dict(
     technique="runtime monitoring: batch-vs-singleton differential monitor with hook-observed scope lifetimes",
     text="Batches of 1-3 rules files that share variable and rule names with different definitions x 2-4 documents differing exactly in the "
          "queried keys are validated as explicit files in several orders (plain and structured), as directories with -a and -m (explicit mtimes), "
-         "as payload lists (half of the batches with an --input-parameters document read by every rules file), as structured junit and sarif batches (per-data-file testsuite / result units vs the stand-alone run), and as multi-case `test` files; every (rules, data) pair's report must equal the report of the pair validated alone and "
+         "as payload lists (half of the batches with an --input-parameters document read by every rules file), as structured junit and sarif batches (per-data-file testsuite / result units vs the stand-alone run), with data files of one base name in different directories, and as multi-case `test` files; every (rules, data) pair's report must equal the report of the pair validated alone and "
          "the exit status must be the maximum over the pairs (40% of the batches end with a rules file every document satisfies). verif-hooks events assert one root scope per pair and no memo hit before a miss in a scope.",
     note="Reports are compared after removing file names and line/column details. In structured mode compliant/not_applicable are name sets by design.",
     ref="DESIGN.md §6 P-C12")
@@ -124,7 +124,7 @@ CHECKS["C16"] = dict(
          "expectation are run through `test` in plain/json/yaml/junit rendering and files/--dir layout (tests files under every extension the directory walk accepts, -a/-m ordering); each (case, rule) outcome (met / unmet / no "
          "expectation), the evaluated statuses of unmet expectations and the exit code 0/7 must follow from the statuses `validate --print-json` "
          "assigns to that rule on the same input, and all renderings must carry the same relation; half of the runs have a second test-data file (-t <dir> / --dir); a template written with 14 short-form tags is used as test input with "
-         "expectations equal to validate's statuses (all met, exit 0) and with one deliberately wrong (exit 7); every JUnit failures=/errors= attribute must equal the number of <failure>/<error> elements below it.",
+         "expectations equal to validate's statuses (all met, exit 0) and with one deliberately wrong (exit 7); expectation files written with JSON escapes (incl. surrogate pairs) must name the same rules as the plain spelling; every JUnit failures=/errors= attribute must equal the number of <failure>/<error> elements below it.",
     note="validate's print-json record is the reference for per-definition statuses. Output order is C05's concern, relations are compared as sets.",
     ref="DESIGN.md §6 P-C16")
 
@@ -134,7 +134,7 @@ CHECKS["C17"] = dict(
          "directories, or one directory given to -i, with stray non-data files in it); validating with -i in every order, in plain and "
          "structured mode, with one or two data files and in payload mode must give the verdicts and exit class of validating the pre-merged document; "
          "rules read keys by name and iterate the merged root map (`this.*`, `[ keys == | in | regex ]`); a deliberately overlapping key (param/param, "
-         "data/param) must produce an error exit without a verdict - not a crash, not a silent choice - in both modes.",
+         "data/param; scalar, list and map values, equal or different) must produce an error exit without a verdict - not a crash, not a silent choice - in both modes.",
     note="The reference is the same front end on the pre-merged document.",
     ref="DESIGN.md §6 P-C17")
 
@@ -163,7 +163,7 @@ CHECKS["C11"] = dict(
          "emitter as JSON compact/pretty, YAML flow and YAML block with random quoting/indent/comments; the verif-hooks loader probes dump every loaded "
          "node for the validate (libyaml) and the test/library (serde) loader and are compared type-strictly, incl. key and list order, with the model; "
          "the document must equal its own Guard literal and pass per-path type probes through validate, --payload, run_checks and test; all 21 tags x "
-         "{scalar, sequence} x 3 nestings are compared with their long form, the YAML core tags (!!str, !!int, !!float, !!bool, !!null) must type a scalar as they say in both loaders; ill-formed texts and non-string keys must be rejected by all 6 front ends. "
+         "{scalar, sequence} x 3 nestings are compared with their long form, the YAML core tags (!!str, !!int, !!float, !!bool, !!null) must type a scalar as they say in both loaders; JSON texts with \\uXXXX / \\n / \\/ escapes must load to the string Python's json gives; ill-formed texts, non-string keys and tagged (non-plain) keys must be rejected by all 6 front ends. "
          "Thorough tier: ~90 documents (hostile texts, generated serialisations, tag documents) are loaded by the libyaml loader under Miri (undefined-behaviour interpreter).",
     note="Strings that YAML or Guard would type as non-strings are always emitted quoted (spellings outside the property are not generated plain). "
          "Multi-document streams and aliases are out of the statement.",
@@ -171,7 +171,7 @@ CHECKS["C11"] = dict(
 
 CHECKS["C10"] = dict(
     technique="runtime monitoring: independent pointer-walk and source-position monitor over structured reports and hooked loader dumps",
-    text="Documents (incl. random doubles, 64-bit integers, YAML literal/folded block scalars; CRLF, leading blank lines, tab-indented JSON) written by a position-tracking emitter in 4 layouts are validated against rules that fail on every node (one clause per scalar, "
+    text="Documents (incl. random doubles, 64-bit integers, YAML literal/folded block scalars, ASCII-escaped JSON strings; CRLF, leading blank lines, tab-indented JSON) written by a position-tracking emitter in 4 layouts are validated against rules that fail on every node (one clause per scalar, "
          "unresolved probes below every map/list/scalar incl. keys taken from variables (`a.%k`), `in`, list iteration, filter-then-[*] on lists of lists and query right-hand sides); every reported from/to/traversed_to {path, "
          "value} is resolved in the model document by an independent walk and must yield exactly that value, unresolved reports must stop at the "
          "deepest existing point of the queried path, and every [L,C] in messages - and, through the verif-hooks loader probe, of every scalar node - "
@@ -184,7 +184,7 @@ CHECKS["C08"] = dict(
     text="Mutated rule texts, 41 adversarial but grammatical program shapes (filters after this/index/filter/keys, literal and function LHS, unary "
          "operators on literals, mismatched/empty/unresolved function arguments, huge indices, self/mutual/when recursion, duplicate-name cycles, cyclic variable definitions, recursive parameterised rules, NaN/infinity operands, odd custom messages, wrong arity, backtracking "
          "regexes, multi-byte substrings ...), generated programs with all features on, and 24 hostile documents plus mutated ones (as data, parameter file, "
-         "test spec, payload envelope), CloudFormation- and Terraform-plan-shaped documents (template-aware console views) and ~60 omitted/conflicting/unsupported argument combinations are run through validate (files, payload, structured, `.ruleset` files and mixed rules directories), test, parse-tree, rulegen (real processes, non-UTF-8 files) and "
+         "test spec, payload envelope), CloudFormation- and Terraform-plan-shaped documents (template-aware console views) and ~60 omitted/conflicting/unsupported argument combinations are run through validate (files, payload, structured, `.ruleset` files and mixed rules directories), test (one and several test files per run, directories), parse-tree, rulegen (real processes, non-UTF-8 files) and "
          "run_checks. The worker captures panics with file:line, the orchestrator attributes process deaths and watchdog expiries to the running job; rejected "
          "rules files must name line and column and evaluate nothing; valgrind memcheck watches the libyaml loader, payload and FFI paths. A second worker "
          "compiled with overflow checks runs the same front ends and, as a crash sweep, the quick workloads of C18 and C13 (thorough: also C01, C03, C10, C15, C11, C17).",
